@@ -128,6 +128,28 @@ def run(prog, tier) -> Result:
     check_pair(prog, res, "R19.1", "Quantity.__hash__", "same unit [money]", qpair("money", True))
     check_pair(prog, res, "R19.1c", "Quantity.__hash__", "equal through a converter [noref]", qpair("noref", False))
 
+    # ... and what a quantity derived from an already hashed one hashes to (a hash kept on the object must not
+    # travel to objects of another value)
+    def derived_pair(fl, opname):
+        def mk(c):
+            c.new_type("T", **FLAVORS[fl])
+            us = c.unit("us", "T")
+            q = c.qty("x", us)
+            m = c.m
+            m.call_builtin("hash", [q], {}, None)
+            fi = prog.lookup(prog.cls("Quantity"), opname)
+            r = m.I.call_function(fi, [q], {})
+            a = q.amount.rf
+            want = {"__neg__": RF.const(0) - a, "__pos__": a}[opname]
+            y = QtyV(Num(want, q.amount.kind), us, c.st.unit_type(us.uid), name="y")
+            return r, y
+        return mk
+    for opname in ("__neg__", "__pos__"):
+        if prog.lookup(prog.cls("Quantity"), opname) is not None:
+            for fl in ("ref", "money"):
+                check_pair(prog, res, "R19.1", "Quantity.__hash__", f"{opname} of a hashed quantity [{fl}]",
+                           derived_pair(fl, opname))
+
     def upair(fl):
         def mk(c):
             c.new_type("T", **FLAVORS[fl])
